@@ -113,3 +113,36 @@ def alternation_siblings(pat):
                         excl.setdefault(g, set()).update(others)
     walk(tree)
     return excl
+
+
+def lazy_repeats_in_group(pat, gid):
+    """number of lazy (minimal) repetitions inside capture group gid"""
+    import warnings
+    with warnings.catch_warnings():
+        warnings.simplefilter('ignore')
+        try:
+            tree = sre_parse.parse(_prep(pat))
+        except Exception as e:
+            raise RxError('cannot parse %r: %s' % (pat[:60], e))
+    count = [0]
+
+    def walk(seq, inside):
+        for op, av in seq:
+            opn = str(op)
+            if opn == 'SUBPATTERN':
+                g, add, dele, sub = av
+                walk(sub, inside or g == gid)
+            elif opn in ('MAX_REPEAT', 'MIN_REPEAT', 'POSSESSIVE_REPEAT'):
+                lo, hi, sub = av
+                if opn == 'MIN_REPEAT' and inside:
+                    count[0] += 1
+                walk(sub, inside)
+            elif opn == 'BRANCH':
+                for alt in av[1]:
+                    walk(alt, inside)
+            elif opn in ('ASSERT', 'ASSERT_NOT'):
+                walk(av[1], inside)
+            elif opn == 'ATOMIC_GROUP':
+                walk(av, inside)
+    walk(tree, False)
+    return count[0]
